@@ -39,8 +39,10 @@ def _(self, node, expected_type):
     traces()
     modifies(node)
     result_sort('node')
-    # everything that goes wrong is a RecognitionError (C08)
+    # everything that goes wrong is a RecognitionError (C08), and its message
+    # cites a source position (C17)
     raises(RecognitionError)
+    raises_msg(RecognitionError, lambda m: cites(m))
     # never a guess: exactly one recognised type, its tag on the node, plain
     # data below Any, element-wise for lists and dicts (C01-C04)
     ensures(proc_rel(old(node), expected_type, result))
@@ -79,6 +81,7 @@ def _(self):
     traces()
     result_sort('node')
     raises(RecognitionError)
+    raises_msg(RecognitionError, lambda m: cites(m))
     raises(YAMLError)
     # every document -- also the empty one -- is processed for the document
     # type before it is handed to the constructors
